@@ -89,6 +89,14 @@ fn gen_program(seed: u64, i: u64, corpus: &Corpus) -> (String, Project, String) 
   (format!("pgen seed {pseed}"), p, g.entry)
 }
 
+fn report_early(run: &mut Run, label: &str, user_src: &str, sig: &str, what: String, m: &BTreeMap<String, Vec<String>>) {
+  let mut detail = String::new();
+  for (val, who) in m {
+    detail.push_str(&format!("---- {} runs, e.g. {}:\n{}\n", who.len(), who[0], val.chars().take(1500).collect::<String>()));
+  }
+  run.violation(sig.to_string(), what, format!("# {label}\n{detail}\n# sources:\n{user_src}"));
+}
+
 /// one compilation in this (fresh) process; prints a JSON line
 fn one(seed: u64, i: u64, perm: u64) {
   pool::install_hook();
@@ -210,7 +218,18 @@ fn main() {
         run.inconclusive(&format!("process died: {d}"));
       }
     }
+    // the same sources crash the compiler in some processes and compile in others: whatever the
+    // cause of the crash (C03's subject), the outcome depends on something other than the sources
+    let panics = field("panic");
     let verdicts = field("verdict");
+    if !panics.is_empty() && !verdicts.is_empty() {
+      let mut both = verdicts.clone();
+      for (k, v) in &panics {
+        both.insert(format!("compile_sources panicked: {}", k.chars().take(200).collect::<String>()), v.clone());
+      }
+      report_early(&mut run, &label, &user_src, "compiler-crashes-in-some-processes-only", format!("{label}: compile_sources panics in {} of {} processes and finishes in the others", panics.values().map(|v| v.len()).sum::<usize>(), panics.values().chain(verdicts.values()).map(|v| v.len()).sum::<usize>()), &both);
+      continue;
+    }
     let report = |run: &mut Run, sig: &str, what: String, m: &BTreeMap<String, Vec<String>>| {
       let mut detail = String::new();
       for (val, who) in m {
